@@ -31,6 +31,10 @@ class InjectedFailure(Exception):
     pass
 
 
+class InjectedInterrupt(KeyboardInterrupt):
+    """a run that is interrupted (Ctrl-C in a notebook): raises, but not an Exception"""
+
+
 class MemVal(InMemoryData):
     """In-memory result of a generated task."""
 
@@ -156,6 +160,8 @@ def body(task, ins, params):
     if plan is not None and _matches(plan, task, tree):
         entry['raised'] = True
         RUNLOG.append(entry)
+        if CTRL.get('raise_base'):
+            raise InjectedInterrupt(f'injected interrupt of {task.fullname}')
         raise InjectedFailure(f'injected failure in {task.fullname}')
     bad = CTRL.get('bad') or {}
     mode = next((m for pl, m in bad.items() if _matches(json.loads(pl), task, tree)), None)
